@@ -1,30 +1,61 @@
 (* Properties_C15.v -- property C15: Poll method, interrupted waits, missing syscalls do not change behaviour.  Statements only.
    Every theorem quantifies over ALL well-formed scenarios: all handler scripts, all kernel behaviours the scenario
-   language can express, all four poll methods, all fault sets, any wait limit.
-   STATUS: the full statement of this property on the core model is `mon_all (run_scenario sc) = true /\ mon_guard sc (run_scenario sc) = true`
-   (see Properties_C15.v.draft); the theorems below are the monitor clauses already proved (named _partial);
-   the remaining clauses (all clauses of the other core properties that are still open, 1501) are checked on every implementation AND model trace by the extracted monitor
-   while their proofs are being completed. *)
-From Coq Require Import List ZArith Bool.
-From Ivv Require Import Core.Kernel Core.CoreTypes Core.CoreFd Core.CoreModel Core.Monitors Core.CoreSpec
-  Core.CoreRel Core.CoreCodes.
+   language can express, all four poll methods (sc_backend 0..3), all fault sets (EINTR at the k-th wait / k-th
+   epoll_ctl for any k, epoll_pwait2 / timerfd / ppoll / eventfd2 / eventfd missing from their first call, EMFILE under
+   the poll methods), any wait limit.  Because `wf_scenario` quantifies over the method and the fault set, every
+   clause below is a statement about every method and every fault sequence.
+   STATUS: the full statement is `mon_all (run_scenario sc) = true /\ mon_guard sc (run_scenario sc) = true`
+   (Properties_C15.v.draft).  Proved here: every tracker clause except 711 (no busy polling); the guard clauses
+   1101/1102 and 711 are checked on every model and implementation trace by the extracted monitors while their
+   proofs are being completed. *)
+From Coq Require Import List ZArith Bool Lia.
+From Ivv Require Import Core.Kernel Core.CoreTypes Core.CoreFd Core.CoreModel Core.Monitors Core.GuardMon Core.CoreSpec
+  Core.CoreRel Core.CoreCodes Core.CorePhase2Fd Core.CorePhase2Ei Core.CorePhase2AcctIdleTop Core.CoreAll Core.CoreExamples.
 Import ListNotations.
 Local Open Scope Z_scope.
 
-(* wf_scenario quantifies over the poll method (0..3) and the fault set, so every theorem of C01-C09/C18 is a statement
-   about every method and every fault sequence; across an interrupted wait time does not run backwards (1502) *)
-Theorem C15_eintr_clock_partial :
-  forall sc, wf_scenario sc -> no_code [1502] (mon_fails (run_scenario sc)).
-Proof. intros sc Hwf. eapply no_code_sub; [|exact (codes_handlers sc Hwf)]. simpl; intros c Hc; intuition. Qed.
-Print Assumptions C15_eintr_clock_partial.
+(* the clauses specific to interrupted waits: no descriptor callback in an iteration whose wait returned EINTR (1501),
+   across an interrupted wait time does not run backwards (1502) *)
+Theorem C15_interrupted_waits :
+  forall sc, wf_scenario sc -> mon_C15 (run_scenario sc) = true.
+Proof. exact core_mon_C15. Qed.
+Print Assumptions C15_interrupted_waits.
 
-Theorem C15_all_methods_C01 :
-  forall sc, wf_scenario sc -> mon_C01 (run_scenario sc) = true.
-Proof. exact core_mon_C01. Qed.
-Print Assumptions C15_all_methods_C01.
+(* on every poll method and under every fault set, the only clause of the behavioural monitor (all clauses of
+   C01-C04, C06, C07, C09, C18 and the event clause 801) that is not yet excluded by proof is 711 *)
+Theorem C15_all_methods_all_faults_partial :
+  forall sc, wf_scenario sc -> forall c, In c (mon_fails (run_scenario sc)) -> c = 711.
+Proof. exact core_all_but_711. Qed.
+Print Assumptions C15_all_methods_all_faults_partial.
 
-Theorem C15_all_methods_handlers_partial :
-  forall sc, wf_scenario sc -> no_code [301; 302; 709; 703; 704; 801; 406; 407; 1502] (mon_fails (run_scenario sc)).
-Proof. exact codes_handlers. Qed.
-Print Assumptions C15_all_methods_handlers_partial.
+(* guard monitor: no kernel interest entry survives an unregistration, on either epoll method and with EINTR on
+   epoll_ctl (1104); the loop never polls twice in a row without sleeping, reporting or calling anything (1103) *)
+Theorem C15_guard_clauses_partial :
+  forall sc, wf_scenario sc -> forall c, In c (gmon_fails sc (run_scenario sc)) -> ~ In c [1103; 1104].
+Proof.
+  intros sc WF c Hin [<-|[<-|[]]].
+  - exact (core_gmon_1103 sc WF _ Hin (or_introl eq_refl)).
+  - exact (core_gmon_1104 sc WF _ Hin (or_introl eq_refl)).
+Qed.
+Print Assumptions C15_guard_clauses_partial.
 
+(* non-vacuity: the same program is well-formed on all four methods, without faults and with faults (epoll_pwait2,
+   timerfd, ppoll, eventfd2 and eventfd missing; the second wait interrupted), runs every kind of callback in both
+   cases, sees an EINTR return in the faulty runs, and all monitors are silent *)
+Example C15_nonvacuous :
+  forall be, In be [0; 1; 2; 3] ->
+    wf_scenario (ex_all be) /\ In (TCallFd 0 0 1 7) (run_scenario (ex_all be)) /\ In (TCallRaw 0) (run_scenario (ex_all be)) /\
+    mon_fails (run_scenario (ex_all be)) = [] /\
+    wf_scenario (ex_all_f be) /\ has_eintr (run_scenario (ex_all_f be)) = true /\ calls_fd (run_scenario (ex_all_f be)) = true /\
+    calls_raw (run_scenario (ex_all_f be)) = true /\ calls_timer (run_scenario (ex_all_f be)) = true /\
+    mon_fails (run_scenario (ex_all_f be)) = [] /\ gmon_fails (ex_all_f be) (run_scenario (ex_all_f be)) = [].
+Proof.
+  intros be H.
+  assert (Hb : 0 <= be <= 3) by (cbn [In] in H; intuition lia).
+  pose proof (ex_all_runs be H) as R. cbv zeta in R.
+  pose proof (ex_all_f_runs be H) as F. cbv zeta in F.
+  destruct R as (R1 & _ & _ & _ & R5 & _ & _ & _ & _ & R10 & _).
+  destruct F as (F1 & F2 & F3 & F4 & F5 & F6).
+  exact (conj (ex_all_wf be Hb) (conj R1 (conj R5 (conj R10 (conj (ex_all_f_wf be Hb)
+          (conj F1 (conj F2 (conj F3 (conj F4 (conj F5 F6)))))))))).
+Qed.
